@@ -1,8 +1,9 @@
 (** C03 — events due at the same instant run in the order they were requested (FIFO). *)
 From Coq Require Import List ZArith NArith Bool.
 Import ListNotations.
-From GS Require Import Num NumZ EventLoop Kernel.
-From GS.Proofs Require Import Aux EventLoopP KernelP KernelP3.
+From Coq Require Import Permutation.
+From GS Require Import Num NumZ EventLoop Kernel Heap.
+From GS.Proofs Require Import Aux EventLoopP KernelP KernelP3 HeapP HeapEvP.
 
 (** Requests accepted later carry larger sequence numbers. *)
 Theorem C03_sequence_is_scheduling_order :
@@ -94,6 +95,36 @@ Theorem C03_fixed_delay_is_monotone :
     fleb A t1 t2 = true -> fleb A (fadd A t1 d) (fadd A t2 d) = true.
 Proof. intros F A OL t1 t2 d. apply (add_mono_l A OL). Qed.
 
+(** The transcribed [heapq] ([Heap.v]) ordered by [Event.__lt__] meets the contract: whatever the
+    layout of the array, if it satisfies the heap condition and holds the queued events, then
+    [heappop] returns the very event the model selects from the queue kept in scheduling order
+    (earliest timestamp, ties first in first out) and leaves exactly the others. *)
+Theorem C03_heapq_pop_is_the_selected_event :
+  forall (F : Type) (A : ArithOps F), OrderLaws A -> forall (P : Type)
+         (h h' : list (event F P)) (m x : event F P) (q : list (event F P)),
+    heap_inv (ev_lt A) h -> NoDup (map (@ev_seq F P) h) -> Permutation (x :: q) h ->
+    heappop (ev_lt A) h = Some (m, h') ->
+    m = q_min A x q /\ Permutation (x :: q) (m :: h').
+Proof. intros F A OL P h h' m x q. apply (heappop_is_selected A OL). Qed.
+
+(** nothing in an array with the heap condition is [ev_lt] its first cell *)
+Theorem C03_heapq_root_is_least :
+  forall (F : Type) (A : ArithOps F), OrderLaws A -> forall (P : Type) (h : list (event F P)) (r : event F P),
+    heap_inv (ev_lt A) h -> nth_error h 0 = Some r -> forall e, In e h -> ev_lt A e r = false.
+Proof. intros F A OL P. apply (heap_root_is_least A OL). Qed.
+
+(** six same-instant events and two earlier ones pushed through the transcribed heap: the heap
+    condition holds after every push and the pops come out by time, ties in request order *)
+Example C03_heapq_example :
+  let evs := map (fun k => mkEv (if Nat.ltb 5 k then 3%Z else 5%Z) (N.of_nat k) k) (seq 0 8) in
+  let h := fold_left (heappush (ev_lt Z_ops)) evs [] in
+  heap_invb (ev_lt Z_ops) h = true /\
+  (fix drain (n : nat) (h : list (event Z nat)) : list nat :=
+     match n with 0 => [] | S n' =>
+       match heappop (ev_lt Z_ops) h with None => [] | Some (m, h') => ev_pl m :: drain n' h' end end) 9 h
+  = [6; 7; 0; 1; 2; 3; 4; 5].
+Proof. vm_compute. split; reflexivity. Qed.
+
 Example C03_example :
   snd (el_run Z_ops (el_init Z_ops)
         [OpSchedule 5%Z 0%nat; OpSchedule 5%Z 1%nat; OpSchedule 5%Z 2%nat; OpSchedule 5%Z 3%nat; OpSchedule 5%Z 4%nat;
@@ -111,3 +142,5 @@ Print Assumptions C03_whole_runs_fifo.
 Print Assumptions C03_earlier_request_runs_first.
 Print Assumptions C03_requests_numbered_in_order.
 Print Assumptions C03_fixed_delay_is_monotone.
+Print Assumptions C03_heapq_pop_is_the_selected_event.
+Print Assumptions C03_heapq_root_is_least.
